@@ -241,8 +241,9 @@ ExpectStep(st, a) ==
       ELSE IF st.exp[s].alive \/ ~st.malive[m] THEN Skip(st)
       ELSE
       LET tab == ShapeTab[shp]
-          lo  == IF tab.rt THEN a[18] ELSE tab.lo
-          hi  == IF tab.rt THEN a[19] ELSE tab.hi
+          \* rtk: 0 compile-time bounds, 1 RT_TIMES(lo, hi), 2 RT_TIMES(hi) = exactly hi, 3 RT_TIMES(AT_LEAST(lo)), 4 RT_TIMES(AT_MOST(hi))
+          lo  == CASE tab.rtk = 0 -> tab.lo [] tab.rtk = 1 -> a[18] [] tab.rtk = 2 -> a[19] [] tab.rtk = 3 -> a[18] [] OTHER -> 0
+          hi  == CASE tab.rtk = 0 -> tab.hi [] tab.rtk = 1 -> a[19] [] tab.rtk = 2 -> a[19] [] tab.rtk = 3 -> 99 [] OTHER -> a[19]
           qs  == SubSeq(<<a[20], a[21]>>, 1, tab.nq)
           pt0 == SubSeq(<<<<a[4], a[5]>>, <<a[6], a[7]>>>>, 1, tab.npar)
           pt  == CASE tab.pm = 0 -> pt0
